@@ -367,14 +367,16 @@ PROPS["C03"] = {
             "point every accepted message must have been invoked.  Non-trivial = a sender completed a push after a worker's empty PopN and before that worker's running->idle CAS executed "
             "(the lost-wake-up window), or completed a push before Start published 'idle'.  Distinct = configuration + consumed schedule.  "
             "Engine leg: the real Engine under generated schedules (uniform or priority/PCT) with 1..3 sender threads, panicking sends and restarts inside the budget: with no stop request, at quiescence "
-            "the actor is registered and every message sent was handled exactly once.",
+            "the actor is registered and every message sent was handled exactly once.  "
+            "Real-goroutine leg (shared with C01): 1..8 concurrent senders against one actor with a small inbox that grows and wraps; once every sender has returned and the gates are open, the actor must get through everything without another send - decided by relative progress (a bystander answers 300 requests while the idle target does not reach the final marker), because the schedule-owning legs treat a ring-buffer call as one step and cannot interleave inside it.",
     "technique": "schedule-owning property testing: liveness decided as safety at quiescence under a cooperative scheduler injected at build time; random schedules (rapid) + preemption-bounded enumeration",
     "level_text": "Generated-schedule search plus complete enumeration of all schedules with a bounded number of preemptions for small configurations; quiescence is exact because the harness owns every thread.",
     "level_note": "sequentially consistent interleavings of the rewritten code only; trusts the rewriter and vsched",
     "assumptions": SCHED_ASSUME,
     "legs": [rapid("rand", "sched", "TestWakeupRandom", 20000, 300000, shards=(2, 12), flavour="sched"),
              plain("dfs", "sched", "TestWakeupDFS", flavour="sched"),
-             rapid("engine", "sched", "TestQuiescenceSchedules", 3000, 60000, shards=(2, 12), flavour="sched")],
+             rapid("engine", "sched", "TestQuiescenceSchedules", 3000, 60000, shards=(2, 12), flavour="sched"),
+             rapid("real", "eng", "TestDelivery", 600, 12000, shards=(2, 12))],
 }
 
 PROPS["C17"] = {
